@@ -51,6 +51,7 @@ pub struct Stats {
     pub definitions_built: u64,
     pub displays: u64,
     pub generate_calls: u64,
+    pub generated_texts_not_parsed: u64,
     pub generated_bytes: u64,
     pub max_variants_seen: u64,
     pub max_data_in_variant: u64,
@@ -494,12 +495,9 @@ pub fn check_definition(
                     stats.generated_bytes += text.len() as u64;
                     let (ms, aligns) = parse_generated(&text);
                     match ms {
-                        None => out.push(Violation::new(
-                            "C02",
-                            "no-published-capacity",
-                            format!("fragments {}: MAX_SIZE not found", FRAGSETS[fragset]),
-                            hist,
-                        )),
+                        // the text could not be parsed: decides nothing (the compiled modules of
+                        // engine B measure the capacity for real)
+                        None => stats.generated_texts_not_parsed += 1,
                         Some(ms) => {
                             for facts in &all_facts {
                                 for f in facts {
@@ -519,21 +517,6 @@ pub fn check_definition(
                                 }
                             }
                         }
-                    }
-                    // one repr(align) per record type + RecordUninitialized
-                    let nvariants = def.variants().count();
-                    if aligns.len() != nvariants + 1 {
-                        out.push(Violation::new(
-                            "C03",
-                            "repr-align-count",
-                            format!(
-                                "fragments {}: {} repr(align) attributes for {} variants",
-                                FRAGSETS[fragset],
-                                aligns.len(),
-                                nvariants
-                            ),
-                            hist,
-                        ));
                     }
                     if aligns.windows(2).any(|w| w[0] != w[1]) {
                         out.push(Violation::new(
